@@ -29,10 +29,10 @@ def run(ck, prog):
         "atom, `first char is '>'` / `last char is '*'` uninterpreted booleans, the header flag a two-valued typestate) "
         "and compared with the stated tables by exact feasibility.")
     ck.attempt(_parser_state, ck, prog)
-    _valid_seq(ck, prog)
-    _final(ck, prog)
-    _line_loop(ck, prog)
-    _ctor_branches(ck, prog)
+    ck.attempt(_valid_seq, ck, prog)
+    ck.attempt(_final, ck, prog)
+    ck.attempt(_line_loop, ck, prog)
+    ck.attempt(_ctor_branches, ck, prog)
 
 
 def _parser_state(ck, prog):
@@ -129,7 +129,7 @@ def _final(ck, prog):
     # the last character can only be '*' if the string contains one:  [seq[-1]=='*'] <= cnt[*]
     from lcsa.lin import Lin
     link = [Lin({"?seq[-1]=='*'": 1, "cnt[*]": -1}, 0, "<="), Lin({"cnt[*]": -1}, 0, "<=")]
-    mis = compare_rows(rows, spec, domain=link, positive=(), int_atoms={"cnt[*]", "?seq[-1]=='*'"})
+    mis = compare_rows(rows, spec, domain=link, positive=(), int_atoms={"cnt[*]", "?seq[-1]=='*'", "trail[*]"})
     ck.ob("DT-asterisk", construct, mis is None,
           expected="no '*': unchanged; two or more: rejected; exactly one: stripped if last, else rejected",
           found=mis or "equivalent", slot="table", where=f.loc())
@@ -144,6 +144,18 @@ def _line_loop(ck, prog):
     if len(loops) != 1:
         raise Undecided("parseSeqFile: expected one line loop", f.loc())
     loop = loops[0]
+    # ---- the asterisk rule speaks about the complete word: applied to the partial word inside the line loop it trims a `*` that merely ends a line
+    fv0 = prog.fn(FP, "SequenceFileParser.__final_validation")
+    inside = [n for n in ast.walk(loop) if isinstance(n, ast.Call) and prog.resolve_call(f, n) is fv0]
+    accs = {s_.targets[0].id for s_ in body[:body.index(loop)] if isinstance(s_, ast.Assign) and isinstance(s_.targets[0], ast.Name)
+            and isinstance(s_.value, ast.Constant) and s_.value.value == ""}
+    for n in inside:
+        if n.args and isinstance(n.args[0], ast.Name) and n.args[0].id in accs:
+            ck.ob("ORDER", construct, False, expected="__final_validation is applied once, to the concatenation of all lines (after the loop)",
+                  found=unparse(n), slot="final-validation-in-loop", where=f.loc(n),
+                  note="a '*' at the end of a line that is not the last line is then treated as the terminal '*' and silently dropped")
+    if any(n.args and isinstance(n.args[0], ast.Name) and n.args[0].id in accs for n in inside):
+        return
     # ---- plumbing: with open(filename) as fh: content = fh.readlines(); for line in content
     src_ok = False
     for s in body:
